@@ -89,6 +89,31 @@ var universe = []objDef{
   - {address: 10.20.0.1, locality: region1/zone1, labels: {app: a, version: v1, security.istio.io/tlsMode: istio}}
   - {address: 10.20.0.2, locality: region2/zone1, labels: {app: a, version: v2, security.istio.io/tlsMode: istio}, ports: {http: 8081}}
 `,
+		// 5: the endpoints MOVED: everything in region2 / region3
+		meta("ServiceEntry", netAPI, "se-a", "ns1") + `spec:
+  hosts: [a.example.com]
+  addresses: [10.10.0.1]
+  ports:
+  - {number: 80, name: http, protocol: HTTP}
+  resolution: STATIC
+  location: MESH_INTERNAL
+  endpoints:
+  - {address: 10.20.0.1, locality: region2/zone1, labels: {app: a, version: v1, security.istio.io/tlsMode: istio}}
+  - {address: 10.20.0.2, locality: region3/zone1, labels: {app: a, version: v2, security.istio.io/tlsMode: istio}}
+`,
+		// 6: no localities at all, three endpoints
+		meta("ServiceEntry", netAPI, "se-a", "ns1") + `spec:
+  hosts: [a.example.com]
+  addresses: [10.10.0.1]
+  ports:
+  - {number: 80, name: http, protocol: HTTP}
+  resolution: STATIC
+  location: MESH_INTERNAL
+  endpoints:
+  - {address: 10.20.0.1, labels: {app: a, version: v1, security.istio.io/tlsMode: istio}}
+  - {address: 10.20.0.2, labels: {app: a, version: v2, security.istio.io/tlsMode: istio}}
+  - {address: 10.20.0.4, locality: region1/zone2, labels: {app: a, version: v2, security.istio.io/tlsMode: istio}}
+`,
 	}},
 	{ID: "se-b", Variants: []string{
 		meta("ServiceEntry", netAPI, "se-b", "ns2") + `spec:
@@ -408,6 +433,68 @@ var universe = []objDef{
   subsets:
   - {name: v1, labels: {version: v1}}
   - {name: v2, labels: {version: v2}}
+`,
+		// 9: explicit failover region1 -> region3
+		meta("DestinationRule", netAPI, "dr-a", "ns1") + `spec:
+  host: a.example.com
+  trafficPolicy:
+    outlierDetection: {consecutive5xxErrors: 3, interval: 1s, baseEjectionTime: 3m}
+    loadBalancer:
+      localityLbSetting:
+        enabled: true
+        failover:
+        - {from: region1, to: region3}
+        - {from: region2, to: region1}
+`,
+		// 10: failoverPriority by labels
+		meta("DestinationRule", netAPI, "dr-a", "ns1") + `spec:
+  host: a.example.com
+  trafficPolicy:
+    outlierDetection: {consecutive5xxErrors: 3, interval: 1s, baseEjectionTime: 3m}
+    loadBalancer:
+      localityLbSetting:
+        enabled: true
+        failoverPriority: ["version", "topology.kubernetes.io/region"]
+`,
+		// 11: the distribute setting of variant 5 WITHOUT outlier detection, locality LB switched off
+		meta("DestinationRule", netAPI, "dr-a", "ns1") + `spec:
+  host: a.example.com
+  trafficPolicy:
+    loadBalancer:
+      localityLbSetting:
+        enabled: false
+        distribute:
+        - from: region1/zone1/*
+          to: {"region1/zone1/*": 70, "region2/zone1/*": 30}
+`,
+	}},
+	// a second rule for the same host in the ROOT namespace (applies where dr-a is not visible / absent)
+	{ID: "dr-root", Variants: []string{
+		meta("DestinationRule", netAPI, "dr-root", "istio-system") + `spec:
+  host: a.example.com
+  trafficPolicy:
+    outlierDetection: {consecutive5xxErrors: 3, interval: 1s, baseEjectionTime: 3m}
+    loadBalancer:
+      localityLbSetting:
+        enabled: true
+        distribute:
+        - from: region1/zone1/*
+          to: {"region1/zone1/*": 20, "region2/zone1/*": 80}
+`,
+		meta("DestinationRule", netAPI, "dr-root", "istio-system") + `spec:
+  host: a.example.com
+  trafficPolicy:
+    outlierDetection: {consecutive5xxErrors: 3, interval: 1s, baseEjectionTime: 3m}
+`,
+		meta("DestinationRule", netAPI, "dr-root", "istio-system") + `spec:
+  host: b.example.com
+  trafficPolicy:
+    outlierDetection: {consecutive5xxErrors: 3, interval: 1s, baseEjectionTime: 3m}
+    loadBalancer:
+      localityLbSetting:
+        enabled: true
+        failover:
+        - {from: region1, to: region2}
 `,
 	}},
 	{ID: "dr-b", Variants: []string{
